@@ -340,17 +340,22 @@ def flow_values(flows, x, T):
 
 def check_dispatch(spec, disp, tol=1e-6):
     """is a dispatch table {(asset, node): values per step} feasible for the reference model, and what is it worth there?
-    The flows are fixed and the reference objective is maximised over the remaining freedom (internal split into p/q,
+    The flows are fixed (within a band that is widened step by step up to tol x scale, because the table comes from a
+    floating-point solver) and the reference objective is maximised over the remaining freedom (internal split into p/q,
     charge/discharge, order fractions).  Returns (status, value)."""
-    lp, flows = build(spec)
     scale = 1.0 + max([abs(v) for vals in disp.values() for v in vals if v is not None] + [0.0])
-    for key, cells in flows.items():
-        vals = disp.get(key)
-        if vals is None:
-            continue
-        for t, cell in enumerate(cells):
-            if cell:
-                v = vals[t] or 0.0
-                lp.row(cell, v - tol * scale, v + tol * scale)
-    st, val, _ = lp.solve()
+    st, val = None, None
+    for band in (tol * 1e-3, tol * 1e-2, tol * 1e-1, tol):
+        lp, flows = build(spec)
+        for key, cells in flows.items():
+            vals = disp.get(key)
+            if vals is None:
+                continue
+            for t, cell in enumerate(cells):
+                if cell:
+                    v = vals[t] or 0.0
+                    lp.row(cell, v - band * scale, v + band * scale)
+        st, val, _ = lp.solve()
+        if st == 'optimal':
+            return st, val
     return st, val
